@@ -38,6 +38,14 @@ def run(ctx):
     # non-vacuity: without the re-check TLC must find the lost wake-up
     o = ctx.tlc("Shutdown", "MC_Shutdown_norecheck.cfg", workers=2, expect_violation=True)
     ctx.extra["nonvacuity"] = "RECHECK=FALSE yields: " + str(o.violation)
+    if not q:
+        # unbounded safety (any number of sessions / arrivals / signals): inductive invariant discharged by Apalache
+        import apalache_c18
+        from vlib import SPECS
+        d, n, err = apalache_c18.run(SPECS, ctx.work, log)
+        ctx.extra["apalache"] = {"obligations": n, "discharged": d, "what": "Init => IndInv; IndInv /\\ Next => IndInv'; IndInv => NoEarlyReturn /\\ ReturnOnlyAfterInterrupt /\\ WgExact, constants arbitrary naturals"}
+        if d != n:
+            raise ToolError("Apalache did not discharge the inductive invariant of Shutdown.tla: " + err[-600:])
     # scenario generation
     scns = []
     g = ctx.tlc("ShutdownGen", "Gen_Shutdown_proto.cfg" if q else "Gen_Shutdown_proto_deep.cfg", workers=4)
